@@ -7,35 +7,54 @@ SOURCES = ["src/allmydata/mutable/filenode.py", "src/allmydata/mutable/publish.p
            "src/allmydata/mutable/retrieve.py", "src/allmydata/mutable/layout.py",
            "src/allmydata/mutable/servermap.py"]
 DESIGN_REF = "DESIGN.md §2 C09"
-TECHNIQUE = ("Lean 4 theorems over an executable model of the mutable-file content path (whole-file publish, "
-             "modify, the MDMF in-place update with its start/end segment arithmetic and "
-             "TransformingUploadable.read, the SDMF re-encode update, Retrieve's partial-read trimming); "
-             "differential correspondence of seeded operation histories on real MutableFileNodes in the in-process "
-             "grid (both formats, small segment sizes, seeded delivery order) and of TransformingUploadable.read / "
-             "setup_encoding_parameters / _do_update_update / Retrieve._decode_blocks (real zfec shares, ranged-read "
-             "setup) / _got_update_results_one_share + _decode_and_decrypt_segments + Retrieve.decode (servermap update "
-             "data to the updater's boundary segments) on crafted inputs against the Lean driver; "
-             "implementation-side monitor against a bytearray")
-LEVEL_TEXT = ("update = splice (also pointwise: only the written bytes change), TransformingUploadable.read = the segments "
-              "of the splice with the updater's and publisher's own start/end segments, history refinement to the "
-              "byte-string fold, read(offset,size) = slice after every history, and _decode_blocks = stored segment are "
-              "proved in Lean for all contents, offsets, lengths, k and segment sizes, both formats; the model is tied to the code by comparing every operation outcome "
-              "(ok/refusal kind, segment size, length) and every read of seeded histories, and the segment "
-              "arithmetic at function level.")
-LEVEL_NOTE = ("Lean kernel + standard axioms; the model is a hand transcription tied by correspondence; FEC/AES/"
-              "hash-tree/share-layout round trips and the publish/servermap networking are abstracted (exercised by "
-              "the grid runs, not verified); the model describes the code with fixes/C09-*.diff applied.")
+TECHNIQUE = ("Lean 4 theorems over an executable model of the mutable-file content path (whole-file publish, modify, "
+             "the MDMF in-place update: _do_update_update start/end segments, the servermap update data -> "
+             "_decode_and_decrypt_segments -> Retrieve.decode step, TransformingUploadable.read, Publish.update / "
+             "setup_encoding_parameters; the SDMF re-encode update; Retrieve's segment selection, _decode_blocks tail "
+             "trimming and _set_segment trimming); differential correspondence of seeded operation histories on real "
+             "MutableFileNodes in the in-process grid (SDMF and MDMF, small segment sizes, many-segment files, reused "
+             "MutableFileVersion objects, seeded random/fifo/lifo delivery order) and, at function level, of "
+             "TransformingUploadable.read, setup_encoding_parameters, _do_update_update, Retrieve._decode_blocks (real "
+             "zfec shares, ranged-read setup) and _got_update_results_one_share + _decode_and_decrypt_segments + "
+             "Retrieve.decode against the Lean driver; implementation-side monitor against a bytearray; a fixed corpus "
+             "(one minimal case per seeded change C09-a..e and per repaired defect) runs first, VERIF_CORPUS_ONLY=1 runs "
+             "only that")
+LEVEL_TEXT = ("Proved in Lean for all contents, offsets, lengths, k and segment sizes, both formats (14 theorems, none "
+              "partial): update_is_splice / update_changes_only_written_bytes (an accepted update is "
+              "old[:off]+data+old[off+len:], only the written bytes change, length = max), update_past_eof_sdmf, "
+              "update_refused (exactly which updates the code refuses), transforming_read_correct and "
+              "updater_and_publisher_agree (TransformingUploadable.read with the updater's and publisher's own start/end "
+              "segments yields the segments of the splice), boundary_segments_paired (servermap update data -> the two "
+              "boundary segments, start first), decode_blocks_is_stored_segment, read_range_slice / read_to_end, "
+              "history_refines_bytes and history_reads_refine (after any history the content is the byte-string fold and "
+              "every valid read returns its slice), publish_stores_data, default_max_segment_size_is_128KiB. The model is "
+              "tied to the code by comparing every operation outcome (ok/refusal kind, segment size, length) and every "
+              "read of seeded histories, and the segment arithmetic at function level.")
+LEVEL_NOTE = ("Lean kernel + standard axioms; the model is a hand transcription tied by correspondence. Correspondence "
+              "only (as in the coverage table of Props/C09.lean): every server response ordering (publish/servermap "
+              "networking is abstracted; histories run under seeded delivery orders); hash-tree reshaping, FEC, AES and "
+              "share layout (grid reads validate the trees and decode real shares); the order of the gathered list in "
+              "ServermapUpdater._got_results (many-segment corpus); reads through a reused version object and the "
+              "refusals of an object overtaken by another one (monitor only). The three C09 defects found here are "
+              "repaired in /repo (b67174d stale node size, 2a6f1c2 SDMF update beyond EOF, 6586d18 second update through "
+              "one version object); the model describes the repaired code and the corpus guards each repair.")
 RULE = ("seeded histories create + ≤8 (thorough ≤40) operations (overwrite via node or version, modify with six "
         "modifier kinds, update at offsets/lengths around segment boundaries, EOF and power-of-two segment counts, "
         "whole and range reads by download_best_version or MutableFileVersion.read or through a fresh node of a second "
-        "client; a family of histories that reuse ONE MutableFileVersion object for several operations) on a real MutableFileNode, SDMF "
-        "and MDMF, k in 1..3, DEFAULT_MUTABLE_MAX_SEGMENT_SIZE lowered to 5..16 bytes (2..4 bytes for a family of "
-        "9..35-segment MDMF files whose updates are chosen by their (start_segment, end_segment) pair); a case is one operation of a "
-        "history (or one crafted function-level input); distinct = distinct (format, k, segsize, size before, op) ; "
-        "non-trivial = the file is non-empty before the operation (function level: the update touches old data)")
+        "client; a family of histories that reuse ONE MutableFileVersion object for several operations, every fourth "
+        "with the object overtaken by another one (monitored, not compared with the model)) on a real MutableFileNode, "
+        "SDMF and MDMF, k in 1..3, DEFAULT_MUTABLE_MAX_SEGMENT_SIZE lowered to 5..16 bytes (2..4 bytes for a family of "
+        "9..35-segment MDMF files whose updates are chosen by their (start_segment, end_segment) pair); function-level "
+        "cases for TransformingUploadable.read, setup_encoding_parameters, _do_update_update, _decode_blocks and the "
+        "update-data step; a case is one operation of a history (or one crafted function-level input); distinct = "
+        "distinct (format, k, segsize, size before, op); non-trivial = the file is non-empty before the operation "
+        "(function level: the update touches old data / more than one segment)")
 TRUSTED = ["lean/Tahoe/Mutable/Content.lean is a hand transcription of the functions listed in its header; a version is "
-           "modelled as (format, segment size, plaintext): segment i is content[i*seg:(i+1)*seg] (the block/FEC/AES/"
-           "hash-tree round trip of each segment is abstracted)",
+           "modelled as (format, segment size, plaintext): stored segment i is content[i*seg:(i+1)*seg]; a fetched block "
+           "is represented by the segment it was read from, the decoder by its zero padding (block bytes, FEC, AES, "
+           "hashes and salts are abstracted)",
+           "a MutableFileVersion object is modelled as a handle to the node: every operation applies to the node's "
+           "current best version (what the code does for an object that is not overtaken, since 6586d18)",
            "harness/grid.py (in-process grid: real storage servers, real client, seeded delivery order, virtual clock)"]
 ASSUMPTIONS = ["a publish that reports success has placed the new version on the shares that later reads use (C47/C11)",
                "one writer, no concurrent operations on the node (C12/C13)",
@@ -44,8 +63,11 @@ ASSUMPTIONS = ["a publish that reports success has placed the new version on the
                "a zero-length update at offset 0 makes the updater fetch 'segment -1'; with the small segments used "
                "here that read succeeds and is ignored (model: no-op success)",
                "an exception from an operation is a refusal: the statement constrains reads after successful operations "
-               "only; refusal classes are compared with the model and counted (MDMF append at an exact segment "
-               "boundary, any update of an empty file, MDMF offset > size)"]
+               "only; refusal classes are proved for the model (update_refused), compared with the code and counted "
+               "(MDMF append at an exact segment boundary, any update of an empty file, MDMF offset > size)",
+               "a read through a reused version object is a read of one specific version: the monitor accepts any "
+               "content the file has had since the object was obtained, or a refusal (KeyError after a publish through "
+               "the object)"]
 
 import os
 import random
